@@ -77,12 +77,13 @@ static std::string hexf(double v) {
   return b;
 }
 static void write_step(std::string& o, const Step& s, int depth) {
-  char b[256];
-  snprintf(b, sizeof b, "step %d %s c=%d h=%d a=%d b=%d cb=%d k=%d u=%llu len=%d val=%s x=%s,%s,%s,%s s=%s\n", depth,
-           g_opnames[s.op], s.client, s.h, s.a, s.b, s.c, s.k, (unsigned long long)s.u, s.len, hexf(s.val).c_str(),
-           hexf(s.x[0]).c_str(), hexf(s.x[1]).c_str(), hexf(s.x[2]).c_str(), hexf(s.x[3]).c_str(),
-           pct_encode(s.s).c_str());
+  char b[512];
+  snprintf(b, sizeof b, "step %d %s c=%d h=%d a=%d b=%d cb=%d k=%d u=%llu len=%d val=%s x=%s,%s,%s,%s s=", depth, g_opnames[s.op],
+           s.client, s.h, s.a, s.b, s.c, s.k, (unsigned long long)s.u, s.len, hexf(s.val).c_str(), hexf(s.x[0]).c_str(),
+           hexf(s.x[1]).c_str(), hexf(s.x[2]).c_str(), hexf(s.x[3]).c_str());
   o += b;
+  o += pct_encode(s.s);  // arbitrarily long
+  o += "\n";
   for (const Step& n : s.nested) write_step(o, n, depth + 1);
 }
 static std::string plan_to_text(const Plan& p) {
